@@ -244,3 +244,109 @@ def number_to_string(x):
     if abs(x) < 9007199254740992.0 and x == int(x):
         return str(int(x))
     raise Unspecified("Number::toString of a symbolic non-integer")
+
+
+# ---- Number.prototype.toFixed / toExponential / toPrecision (21.1.3), exact rational arithmetic ------------
+def _names(x):
+    if x != x:
+        return "NaN"
+    if x == INF:
+        return "Infinity"
+    if x == -INF:
+        return "-Infinity"
+    return None
+
+
+def _round_half_up(fr):
+    """Nearest integer to the non-negative Fraction fr, ties to the larger."""
+    from fractions import Fraction
+    n = fr.numerator // fr.denominator
+    if fr - n >= Fraction(1, 2):
+        n += 1
+    return n
+
+
+def to_fixed(x, f):
+    from fractions import Fraction
+    if _names(x):
+        return _names(x)
+    x = float(x)
+    if abs(x) >= 1e21:
+        return number_to_string(x)
+    neg = x < 0
+    n = _round_half_up(Fraction(abs(x)) * 10 ** f)
+    s = str(n)
+    if f:
+        s = s.rjust(f + 1, "0")
+        s = s[:-f] + "." + s[-f:]
+    return ("-" if neg else "") + s
+
+
+def _sci(x, f):
+    """(digits, e): abs(x) ~ digits[0].digits[1:] x 10**e with f fraction digits, half up on ties."""
+    from fractions import Fraction
+    fr = Fraction(abs(float(x)))
+    if fr == 0:
+        return "0" * (f + 1), 0
+    e = 0
+    while fr >= Fraction(10) ** (e + 1):
+        e += 1
+    while fr < Fraction(10) ** e:
+        e -= 1
+    n = _round_half_up(fr / Fraction(10) ** (e - f))
+    if n >= 10 ** (f + 1):
+        e += 1
+        n = _round_half_up(fr / Fraction(10) ** (e - f))
+    return str(n).rjust(f + 1, "0"), e
+
+
+def _exp_text(neg, digs, e):
+    m = digs[0] + ("." + digs[1:] if len(digs) > 1 else "")
+    return ("-" if neg else "") + m + "e" + ("+" if e >= 0 else "-") + str(abs(e))
+
+
+def to_exponential(x, f=None):
+    if _names(x):
+        return _names(x)
+    x = float(x)
+    if f is None:
+        if x == 0:
+            return "0e+0"
+        d, n = digits_and_exponent(abs(x))
+        return _exp_text(x < 0, d, n - 1)
+    digs, e = _sci(x, f)
+    return _exp_text(x < 0, digs, e)
+
+
+def to_precision(x, p=None):
+    if p is None:
+        return number_to_string(float(x)) if not _names(x) else _names(x)
+    if _names(x):
+        return _names(x)
+    x = float(x)
+    digs, e = _sci(x, p - 1)
+    neg = x < 0
+    if e < -6 or e >= p:
+        return _exp_text(neg, digs, e)
+    s = "-" if neg else ""
+    if e >= 0:
+        return s + digs[:e + 1] + ("." + digs[e + 1:] if digs[e + 1:] else "")
+    return s + "0." + "0" * (-e - 1) + digs
+
+
+def to_radix_string(x, radix):
+    """Number::toString(x, radix) for integer-valued x (fractions are implementation-approximated)."""
+    if _names(x):
+        return _names(x)
+    x = float(x)
+    if x != int(x):
+        raise Unspecified("non-integer in a radix other than 10")
+    n = abs(int(x))
+    if n == 0:
+        return "0"
+    ds = "0123456789abcdefghijklmnopqrstuvwxyz"
+    out = ""
+    while n:
+        out = ds[n % radix] + out
+        n //= radix
+    return ("-" if x < 0 else "") + out
